@@ -160,7 +160,9 @@ def plus(e, x, leafw, alg, memo):
     if alg.R in ("Boolean", "MaxTimes"):
         r = rhs                      # the A(ε)·P(x) term cannot increase an idempotent sum with A(ε) ≤ 1
     else:
-        r = rhs / (1 - a_eps)        # geometric series in A(ε); the generator keeps |A(ε)| < 1
+        if abs(a_eps) >= 0.75:
+            raise ZeroDivisionError("star of an operand whose empty-string weight is (close to) ≥ 1 diverges: outside the property")
+        r = rhs / (1 - a_eps)        # geometric series in A(ε)
     memo[key] = r
     return r
 
@@ -181,6 +183,14 @@ def gen_expr(rng, depth, syms, R):
         d["syms"] = syms
         if R == "Boolean":
             d = gen.wfsa_to_bool(d)
+        k = rng.random()
+        if k < 0.15:
+            # state names that look like the tags `rename_apart` creates
+            ren = lambda q: [1, q]  # noqa
+            d = {**d, "start": [[ren(q), w] for q, w in d["start"]], "stop": [[ren(q), w] for q, w in d["stop"]], "arcs": [[ren(a), b, ren(c), w] for a, b, c, w in d["arcs"]]}
+        elif k < 0.3 and d["start"] and d["stop"]:
+            # an ε arc from a final state back to an initial state already present in the operand
+            d["arcs"].append([d["stop"][0][0], "", d["start"][0][0], common.frac_str(rng.choice(gen.SMALL) / 2) if R != "Boolean" else True])
         if R == "MaxTimes":
             f = lambda w: w if common.num(w) <= 1 else "1"  # noqa
             d = {**d, "start": [[q, f(w)] for q, w in d["start"]], "stop": [[q, f(w)] for q, w in d["stop"]], "arcs": [[a, b, c, f(w)] for a, b, c, w in d["arcs"]]}
